@@ -642,35 +642,37 @@ PASSWORDS = {"aes-128.pdf": "foo", "aes-128-m.pdf": "foo", "aes-256.pdf": "foo",
              "aes-256-r6.pdf": "usersecret", "rc4-128.pdf": "foo", "rc4-40.pdf": "foo"}
 
 
-def random_graph(rng, n, back=0.08):
-    """a large document graph (far outside the bounded space): nodes in creation order, random fan-out, some
-    repeats / back references, random attribute placement"""
-    g = [{"kind": "Pages", "own": [], "nk": 0, "kids": []}]
+def random_graph(rng, n, back=0.05):
+    """a large document graph (far outside the bounded space): nodes in creation order, random fan-out, random
+    attribute placement; back > 0: some repeated / backward Kids entries (cycles)"""
+    g = [{"kind": "Pages", "own": ["MediaBox"], "nk": 0, "kids": []}]
     open_nodes = [1]
-    while len(g) < n and open_nodes:
+    width = {1: rng.choice([8, 40])}
+    while len(g) < n:
         parent = rng.choice(open_nodes)
         r = rng.random()
         if r < back and len(g) > 1:
             g[parent - 1]["kids"].append(rng.randrange(1, len(g) + 1))
             continue
-        kind = "Pages" if r < 0.30 else "Other" if r < 0.34 else "Page"
+        kind = "Pages" if r < back + 0.25 else "Other" if r < back + 0.29 else "Page"
         g.append({"kind": kind, "own": [], "nk": 0, "kids": []})
         g[parent - 1]["kids"].append(len(g))
         if kind == "Pages":
             open_nodes.append(len(g))
-        if len(g[parent - 1]["kids"]) > rng.choice([3, 8, 40]):
+            width[len(g)] = rng.choice([3, 8, 40])
+        if len(g[parent - 1]["kids"]) > width[parent] and len(open_nodes) > 1:
             open_nodes.remove(parent)
     for node in g:
         node["nk"] = len(node["kids"])
         if node["kind"] != "Other":
-            node["own"] = [a for a in RT.INHERITABLE if rng.random() < (0.25 if node["kind"] == "Pages" else 0.15)]
+            node["own"] = sorted(set(node["own"]) | {a for a in RT.INHERITABLE if rng.random() < (0.3 if node["kind"] == "Pages" else 0.15)})
     return g
 
 
-def big_document(rng, n):
+def big_document(rng, n, back):
     """realised with its own value scheme (hundreds of sources): values are unique per (attribute, node)"""
-    from ..realise.pdfwriter import Name, Ref, Revision, Stream, build, type1_font
-    g = random_graph(rng, n)
+    from ..realise.pdfwriter import Name, Ref, Revision, build, type1_font
+    g = random_graph(rng, n, back)
     objs = {1: {"Type": Name("Catalog"), "Pages": Ref(2)}, len(g) + 2: type1_font("Helvetica")}
     fref = Ref(len(g) + 2)
     if rng.random() < 0.5:
@@ -707,10 +709,10 @@ def record_all(ck):
     nbig = 6 if ck.tier == "quick" else 40
     for i in range(nbig):
         n = rng.choice([60, 150, 400]) if ck.tier == "quick" else rng.choice([60, 150, 400, 1200])
-        sources.append(("generated:%d:n=%d" % (i, n), big_document(rng, n), ""))
+        back = 0.05 if i % 2 else 0      # every other one is a proper tree (the declarative reference is evaluated on those)
+        sources.append(("generated:%d:n=%d:%s" % (i, n, "graph" if back else "tree"), big_document(rng, n, back), ""))
     for name, data, pw in sources:
         try:
-            np_guess = 8
             sels = [((), 0)]
             for _ in range(3 if ck.tier == "quick" else 8):
                 hi = rng.choice([2, 5, 12, 60])
